@@ -75,6 +75,7 @@ class P(Prop):
         (M, "TV.C10.states_flag_or_matched_3d", "with altitudes: STATES[i] is the flag state with the observation's own 3D position, or matched states: U = 0, on the planimetric geometry of an existing edge, d < radius, planimetric along-edge distances adding up to the planimetric edge length"),
         (M, "TV.C10.altitudes_irrelevant", "forgetting the altitudes commutes with building the network (same numbers, abs_curv columns, spatial index, exceptions) and with preparing STATES (same candidates, points, distances, exceptions)"),
         (M, "TV.C10.front_end_sound_3d", "mapOnNetwork on a network and tracks with altitudes: every processed track keeps its observations (3D positions), gets the three columns, every hmm_inference entry is one of STATES[k]: the flag state or matched as in states_flag_or_matched_3d"),
+        (M, "TV.C10.front_end_tracks_independent_3d", "with altitudes: the result of the j-th track is the result of matching it alone; a bare Track = collection of one; transition_cost / debug / verbose influence nothing; without exception every track is processed"),
         (M, "TV.C10.matched_on_built_network_3d", "a network built by addEdge from LINESTRING(x y z)-made edges stores the n-th geometry under number n WITH its altitudes; a matched state lies on the planimetric vertices of THAT geometry, distances adding up to its planimetric length"),
         (M, "TV.C10.near_edge_is_candidate_3d", "near_edge_is_candidate with altitudes: the index reads x, y only"),
         (M, "TV.C10.returns_on_regular_geometries", "on edges with computed abs_curv columns whose geometries have no kept vertical segment and at least one kept segment, candidate lists of existing edge numbers and in-range decoded indices: __mapOnNetwork raises nothing"),
